@@ -89,10 +89,14 @@ func runEnv(c EnvCase, dir string) error {
 	}
 	env := cli.Env{Bin: drv.Bin(), Dir: dir, Home: filepath.Join(dir, "home"), Extra: extra}
 	target := "tk"
+	argv := []string{"-c", "t.yaml", "--raw", "tk"}
 	if c.AsStage {
-		target = "pp"
+		// the pipeline first, then the same task directly in the same invocation: the direct run must see
+		// the task's own layering, without the stage level
+		target = "pp tk"
+		argv = []string{"-c", "t.yaml", "--raw", "pp", "tk"}
 	}
-	r := env.Run("-c", "t.yaml", "--raw", target)
+	r := env.Run(argv...)
 	top, topHook := -1, -1
 	for i := 0; i < 6; i++ {
 		if has(i) {
@@ -115,6 +119,29 @@ func runEnv(c EnvCase, dir string) error {
 	if !strings.Contains(r.Stdout, want("CMD", top)) {
 		return fmt.Errorf("levels %v defined: the command must see the value of %q (highest level present), untouched OTHER and TASK_NAME=tk: want line %q, stdout %q",
 			present(c.Mask), levels[top], want("CMD", top), r.Stdout)
+	}
+	if c.AsStage {
+		topDirect := -1
+		for i := 0; i < 6; i++ {
+			if has(i) && i != 4 {
+				topDirect = i
+			}
+		}
+		// the last CMD line belongs to the direct run
+		lines := strings.Split(strings.TrimSpace(r.Stdout), "\n")
+		last := ""
+		for _, l := range lines {
+			if strings.HasPrefix(l, "CMD ") {
+				last = l + "\n"
+			}
+		}
+		if strings.Count(r.Stdout, "CMD ") < 2 || last != want("CMD", topDirect) {
+			lvl := "(nothing: FOO unset)"
+			if topDirect >= 0 {
+				lvl = levels[topDirect]
+			}
+			return fmt.Errorf("levels %v defined: the direct run after the pipeline must see the value of %s, not the stage's: want last line %q, stdout %q", present(c.Mask), lvl, want("CMD", topDirect), r.Stdout)
+		}
 	}
 	if c.Hooks {
 		for _, tag := range []string{"BEFORE", "AFTER"} {
